@@ -1643,9 +1643,9 @@ def _o_decode(ex, stream, asn1Spec=None, **options):
     if '**' in options and 'allowEoo' in options['**'].entries:
         present, val = options['**'].entries['allowEoo']
         allowed = present is True and val is True
-    if allowed != ex.c.eoo_allowed:
-        from pyvc.core import ContractError
-        raise ContractError('the contract declares allowEoo=%s for the inner decode, the code passes %s' % (ex.c.eoo_allowed, allowed))
+    # the captured octets are one complete element: the inner decode is not told to expect an end-of-octets marker (C10: with
+    # allowEoo an element `00 00` came back as the end-of-octets object inside the decoded collection)
+    ex.vc('%s#inner-decode-as-the-contract-declares-allowEoo' % ex.c.id, z3.BoolVal(allowed == ex.c.eoo_allowed), kind='external')
     if allowed and ex.choose(O_INNER_EOO(octets), 'captured-octets-are-00-00'):
         return END_OF_OCTETS          # 00 00 inside an ANY: handed out as the marker, the member then stays as captured
     ident = O_DEC(octets, toint(asn1Spec.fields['__id__']))
@@ -1693,8 +1693,10 @@ CONTRACTS = CONTRACTS + [OPEN_TYPES_N]
 OPEN_TYPES_N_INDEF = _copy.copy(OPEN_TYPES_N)
 OPEN_TYPES_N_INDEF.id = 'ber.decoder::ConstructedPayloadDecoderBase.indefLenValueDecoder@open-types[any-size]'
 OPEN_TYPES_N_INDEF.qual = 'ConstructedPayloadDecoderBase.indefLenValueDecoder'
-OPEN_TYPES_N_INDEF.requires = ['N >= 0', 'eooAllowedInside']
-OPEN_TYPES_N_INDEF.eoo_allowed = True
+# (until the repair that dropped allowEoo from the inner decode, the indefinite-length variant took captured octets `00 00` for
+# "no inner value": the member stayed as captured, an element of a collection became the end-of-octets object itself)
+OPEN_TYPES_N_INDEF.requires = ['N >= 0', 'not eooAllowedInside']
+OPEN_TYPES_N_INDEF.eoo_allowed = False
 CONTRACTS = CONTRACTS + [OPEN_TYPES_N_INDEF]
 
 
@@ -1898,3 +1900,47 @@ RAW_DEF = Contract(
     note='the tag set passed on is the one accumulated so far (outer explicit tags included): the inner element is matched '
          'against the guide as a whole')
 CONTRACTS = CONTRACTS + [RAW_DEF]
+
+
+# ---- a caller-supplied collector (substrateFun) is offered a fresh object of the guiding type, never the guide itself (C12) -----
+def _uc_guide(ex, env):
+    if ex.choose(z3.Bool('guide.given'), 'guided'):
+        def clone(ex2, self_, *a, **kw):
+            return Obj('Asn1Value', {'cloneOf': self_}, name='freshObject')
+        return Obj('Asn1Type', {}, {'clone': clone}, name='asn1Spec')
+    return None
+
+
+def _uc_self(ex, env):
+    def pclone(ex2, self_, *a, **kw):
+        return Obj('Asn1Value', {'cloneOf': self_}, name='freshPrototype')
+    proto = Obj('Asn1Type', {}, {'clone': pclone}, name='protoComponent') if ex.choose(z3.Bool('proto.given'), 'has-prototype') else None
+    return Obj('ConstructedPayloadDecoderBase', {'protoComponent': proto,
+                                                 'protoRecordComponent': Obj('Asn1Type', {}, name='protoRecordComponent'),
+                                                 'protoSequenceComponent': Obj('Asn1Type', {}, name='protoSequenceComponent')},
+               name='self')
+
+
+def _uc_collector(ex, asn1Object, substrate, length, options):
+    ex.ghost['offered'] = asn1Object
+    return Tup([Obj('Asn1Value', {}, name='collected')], 'list')
+
+
+def _user_collector(qual, short, test='substrateFun'):
+    return Contract(
+        id='ber.decoder::%s@user-collector' % qual, file=F, qual=qual, region=test, is_generator=True,
+        properties=['C12'],
+        params=dict(self=PDerived(_uc_self), asn1Spec=PDerived(_uc_guide), substrate=PConst(Obj('Stream', {}, name='substrate')),
+                    tagSet=PConst(Obj('TagSet', {}, name='tagSet')), length=PInt(), options=POptions(),
+                    substrateFun=PConst(FnV(_uc_collector, 'substrateFun'))),
+        ghost={'offered': None}, globals={'given': z3.Bool('guide.given')},
+        exit_ensures=[('the-collector-is-offered-a-fresh-object-not-the-guide',
+                       'given ==> (offered is not asn1Spec and offered.cloneOf is asn1Spec)')],
+        note='%s: whatever the collector does with the object it is offered (fill it in, hand it back) cannot reach the '
+             'guiding type; the collector is a model that records what it was offered' % short)
+
+
+USER_COLLECTOR_DEF = _user_collector('ConstructedPayloadDecoderBase.valueDecoder', 'definite length')
+USER_COLLECTOR_INDEF = _user_collector('ConstructedPayloadDecoderBase.indefLenValueDecoder', 'indefinite length',
+                                       test='substrateFun is not None')
+CONTRACTS = CONTRACTS + [USER_COLLECTOR_DEF, USER_COLLECTOR_INDEF]
